@@ -83,9 +83,9 @@ REG = {
    'Rocq/Coq proof (derivation relation over decoder runs, bridge to an independent parser, computation over regenerated tables) + vm_compute correspondence',
    'CER tree-level theorem excludes types with string components (fragments are collected raw). Observation: constructed BOOLEAN is accepted by CER/DER.'),
  'C16': (True,
-   'Theorems: decoding WITHOUT a guiding type returns exactly the wire tags, the same skeleton and leaves, and DER re-encoding of the result reproduces the DER encoding of the original, for self-describing simple types under EXPLICIT tags and SEQUENCE/SEQUENCE OF/SET/SET OF nesting, all three decoders. Per input: DER/BER/CER encodings of the implicit-free sub-universe decoded without schema: value object, byte-identical DER re-encoding, same leaves; model compared in Coq.',
+   'Theorems: decoding WITHOUT a guiding type returns exactly the wire tags, the same skeleton and leaves, and DER re-encoding of the result reproduces the DER encoding of the original, for self-describing simple types under EXPLICIT tags and SEQUENCE/SEQUENCE OF/SET/SET OF nesting, in every mode of the BER encoder and for the CER encoder, also with absent OPTIONAL components. Per input: DER/BER/CER encodings of the implicit-free sub-universe decoded without schema: value object, byte-identical DER re-encoding, same leaves; model compared in Coq.',
    'Rocq/Coq proof (induction over types and explicit tag stacks) + vm_compute correspondence against /repo',
-   'CHOICE, absent OPTIONALs and the indefinite mode are decided per input. Known finding F01 (pinned).'),
+   'CHOICE and DEFAULT components are decided per input. Known finding F01 (pinned).'),
  'C17': (True,
    "Coq model of the native encoder/decoder and of the bare-value branch of the BER/CER/DER encoders; theorems by induction on the type: native "
    "round trip preserves abstract content (ANY included), Python-value encoding equals value-object encoding for every codec/mode incl. absent "
@@ -93,11 +93,10 @@ REG = {
    "Rocq/Coq proof (structural induction over the type universe) + vm_compute correspondence against /repo",
    "REAL other than +-inf/0 goes through Python float: outside the model (compared implementation-to-implementation)."),
  'C18': (True,
-   "Coq model of open-type wrapping and of the second decoding pass on top of the codec model; theorems (with the record round trip as an "
-   "explicit premise): raw field = complete inner encoding when resolution is off/unmapped, resolved inner value when on, caller map wins, "
+   "Coq model of open-type wrapping and of the second decoding pass on top of the codec model; theorems (unconditional since the whole-universe codec round trip is proved; older forms keep it as a premise): raw field = complete inner encoding when resolution is off/unmapped, resolved inner value when on, caller map wins, "
    "for scalar and SET OF/SEQUENCE OF ANY; refutation witnesses for the F01 class. Tied to /repo over INTEGER/OID-keyed maps x taggings x codecs x options.",
    "Rocq/Coq proof (conditional on the staged codec round trip) + vm_compute correspondence against /repo",
-   "Premise = codec round trip (C01/C02 stage); known findings F01, F24 (pinned)."),
+   "The codec round trip is no longer a premise (C18_open_resolved_record, C18_open_raw); known findings F01, F24 (pinned)."),
  'C19': (True,
    "Coq models of SequenceOf/SetOf (sparse dict), Sequence/Set (slot list) and Choice objects as step functions, refinement to plain "
    "list/dict/option specs by induction on the history with one lemma per operation; reads inert; ill-formed operations inert; CHOICE "
